@@ -35,6 +35,8 @@ Vals == CASE Size = "s" -> {StrVal("v1")}
           \* booleans and yes-words, null and a list
           [] Size = "w" -> {StrVal("v1"), StrVal("1"), IntVal(1), StrVal("1.5"), TypedVal("float", 3, <<>>), TypedVal("float", 2, <<>>), TypedVal("bool", 0, <<>>),
                             TypedVal("bool", 1, <<>>), StrVal("yes"), NullVal, TypedVal("list", 0, <<IntVal(1), StrVal("v2")>>), TypedVal("list", 0, <<>>)}
+          \* "i": strings that look like IRIs (with backslashes / control characters in their concrete form)
+          [] Size = "i" -> {StrVal("v1"), StrVal("iri1"), StrVal("iri2"), StrVal("iri3"), StrVal("iri4")}
           [] OTHER -> {StrVal("v1"), IntVal(1)}
 
 \* references to live items, by handle and (when they have one) by id
@@ -242,6 +244,15 @@ PreludeOps ==
                               ann("a1", txt(0, 2), d1), ann("a2", TB("Text", ById("r2"), NoRef, Off("B", 0, "B", 2)), d1),
                               ann("a3", txt(1, 3), <<>>), ann("a4", TB("Text", ById("r2"), NoRef, Off("B", 1, "B", 3)), <<>>),
                               ann("a5", TB("Text", ById("r2"), NoRef, Off("B", 0, "B", 2)), d2)>>
+         \* 17: references with nested parts: the selection with the greatest begin does not have the greatest end
+         [] Prelude = 17 -> LET t(b, e) == TB("Text", ById("r1"), NoRef, Off("B", b, "B", e)) IN
+                            <<[ev |-> "AddResource", a |-> [id |-> "r1", text |-> <<11, 21, 31, 11, 21, 51>>]],
+                              ann("a1", t(0, 5), <<>>), ann("a2", t(1, 2), <<>>), ann("a3", t(2, 4), <<>>), ann("a4", t(4, 6), <<>>),
+                              ann("a5", t(5, 6), <<>>), ann("a6", t(3, 5), <<>>),
+                              ann("c1", Complex("Composite", <<t(0, 5), t(1, 2)>>), <<>>),
+                              ann("c2", Complex("Multi", <<t(2, 4), t(0, 5), t(4, 6)>>), <<>>),
+                              ann("c3", Complex("Directional", <<t(1, 2), t(0, 5)>>), <<>>),
+                              ann("c4", Complex("Composite", <<t(0, 3), t(1, 2), t(2, 3)>>), <<>>)>>
          \* 6: metadata annotations on keys/data/sets and annotations on annotations (chain + relative offset)
          [] OTHER -> <<addres, addset, ann("a1", txt(0, 2), d1),
                        ann("", TB("Key", ById("s1"), ById("k1"), NoOffset), <<>>),
@@ -267,7 +278,9 @@ Building == Scenario \notin {"remove", "protect", "transpose", "batch", "tempish
 Tuning == ~EmitAll
 Adding == Scenario \notin {"remove", "offsets", "related", "textops", "batch", "tempish", "complexrel"}
 \* C07: one resource per behaviour, over every text up to P1 characters of the alphabet selected by P2
-TextAlphabet == CASE P2 = 1 -> {11, 41, 12} [] P2 = 2 -> {11, 22, 32} [] P2 = 3 -> {11, 31, 21} [] OTHER -> {11, 14, 41}
+TextAlphabet == CASE P2 = 1 -> {11, 41, 12} [] P2 = 2 -> {11, 22, 32} [] P2 = 3 -> {11, 31, 21}
+                       [] P2 = 5 -> {11, 32, 43}      \* a character that grows and one that shrinks when lower-cased
+                       [] OTHER -> {11, 14, 41}
 
 Removing == Scenario \in {"all", "remove", "core", "tempish"}
 \* C18: after protecting, every annotation that selects text validates (a law of the specification itself)
@@ -423,7 +436,7 @@ TextContainers ==
     \cup UNION {{Cont("range", ByH(r), x[1], x[2], NoRef) : x \in {y \in RangesOf(Len(st.res[r].text)) : y[1] < y[2]}} : r \in LiveRes(st)}
 SegmentOps == {RO("TextOp", [c |-> c, op |-> "segmentation", needle |-> <<>>, pat |-> <<>>, frags |-> <<>>]) : c \in TextContainers}
 
-Partner(c) == CASE c = 11 -> 41 [] c = 41 -> 11 [] c = 12 -> 22 [] c = 22 -> 12 [] c = 21 -> 61 [] OTHER -> c
+Partner(c) == CASE c = 11 -> 41 [] c = 41 -> 11 [] c = 12 -> 22 [] c = 22 -> 12 [] c = 21 -> 61 [] c = 43 -> 101 [] OTHER -> c
 TextOpOps ==
     LET A == TextAlphabet
         A2 == A \cup {Partner(c) : c \in A}
